@@ -83,6 +83,10 @@ func VH_C16_layout() {
 	crlf := vBool("crlf")
 	trailing := vBool("trailingNewline")
 	descr := vBool("description")
+	sep := " "
+	if vBool("tabSeparatedDescription") {
+		sep = "\t"
+	}
 	lw := 1 + vChoice("linewidth", W)
 	nl := "\n"
 	if crlf {
@@ -97,7 +101,7 @@ func VH_C16_layout() {
 		}
 		data = append(data, []byte(">id"+string(rune('0'+r)))...)
 		if descr {
-			data = append(data, []byte(" some text")...)
+			data = append(data, []byte(sep+"some text")...)
 		}
 		data = append(data, []byte(nl)...)
 		for i := 0; i < W; i += lw {
@@ -130,7 +134,7 @@ func VH_C16_layout() {
 				fr := o.plain[r]
 				wantDesc := "id" + string(rune('0'+r))
 				if descr {
-					wantDesc += " some text"
+					wantDesc += sep + "some text"
 				}
 				vAssert("C16.layout.plain-id-description-idx", fr.ID == "id"+string(rune('0'+r)) && fr.Description == wantDesc && fr.Idx == r)
 				vAssert("C16.layout.plain-seq-length", len(fr.Seq) == W)
@@ -150,7 +154,7 @@ func VH_C16_layout() {
 			er := o.recs[r]
 			wantDesc := "id" + string(rune('0'+r))
 			if descr {
-				wantDesc += " some text"
+				wantDesc += sep + "some text"
 			}
 			vAssert("C16.layout.id-description-idx", er.ID == "id"+string(rune('0'+r)) && er.Description == wantDesc && er.Idx == r)
 			vAssert("C16.layout.seq-length", len(er.Seq) == W)
